@@ -19,6 +19,9 @@ UNIVERSES = {
     "etf+es": (("E", 1.0, 1.0, 0.0), ("ES", 50.0, 0.0, 0.1)),
     "spot+spot": (("S", 1.0, 1.0, 0.0), ("T", 2.0, 1.0, 0.0)),
     "halfmult": (("H", 0.5, 1.0, 0.0), ("F3", 0.5, 0.0, 0.5)),
+    # the SAME symbols as "spot1+fut" with other specifications (a user re-defines a contract between two simulations of one
+    # process): explored right after "spot1+fut" in the same worker process, and the other way round (checks/c01.py)
+    "respec": (("S", 4.0, 1.0, 0.0), ("F", 4.0, 0.0, 0.5)),
     # three contracts (a target may then name only some of the held ones)
     "three": (("S", 1.0, 1.0, 0.0), ("F", 2.0, 0.0, 0.25), ("T", 2.0, 1.0, 0.0)),
 }
